@@ -201,4 +201,31 @@ theorem interval_stale_counterexample :
       = [(.started, .notContactedYet, 0), (.none, .working, 5)] := by
   refine ⟨by simp [Mono], by decide, by decide⟩
 
+theorem retryMinutesOf_le (n : Nat) : retryMinutesOf n ≤ 1440 := by
+  unfold retryMinutesOf; split
+  · omega
+  · exact Nat.min_le_right _ _
+
+theorem retryMinutesOf_pos (n : Nat) (h0 : n ≠ 0) (h1 : n ≤ 9223372036854775807) : 1 ≤ retryMinutesOf n := by
+  unfold retryMinutesOf
+  rw [if_neg (by omega)]
+  omega
+
+/-- **retry_in_bounded.** Whatever string a tracker's failure reply carries as `retry in`, the delay the client
+takes from it is a whole number of minutes, at most one day: none (the client's own back-off applies) or at least
+a minute — never a wrapped-around value of a few nanoseconds (finding C15-F4). -/
+theorem retry_in_bounded (s : String) : ∃ m, m ≤ 1440 ∧ retryInNs s = m * 60000000000 := by
+  have key : ∀ t : String, ∃ m, m ≤ 1440 ∧ retryDigits t = m * 60000000000 := by
+    intro t
+    unfold retryDigits
+    split
+    · exact ⟨0, by omega, by simp⟩
+    · exact ⟨_, retryMinutesOf_le _, rfl⟩
+  exact key _
+
+/-- The values of the finding: a number of minutes whose conversion used to wrap (to 2048 ns) is a day now; what
+does not fit an `int` is no delay at all. -/
+example : retryMinutesOf 5 = 5 ∧ retryMinutesOf 3749353613647811 = 1440 ∧ retryMinutesOf 0 = 0 ∧
+    retryMinutesOf 9223372036854775808 = 0 ∧ retryMinutesOf 1441 = 1440 := by decide
+
 end Rain.Props.C15
